@@ -104,6 +104,31 @@ struct ExecSpec {
     in_callee: bool,
     /// a helper that overwrites every caller-saved register is called before the adds
     helper_first: bool,
+    /// an atomic add on the program's own stack (base register r10) whose result, folded with two
+    /// sentinel neighbours, is what the execution returns
+    stack_check: Option<StackCheck>,
+}
+
+#[derive(Clone, Debug)]
+struct StackCheck {
+    width: u8,
+    /// byte offset of the add inside the 8-byte slot at r10-16 (0, or 4 for the upper u32)
+    half: u8,
+    init: u64,
+    addend: u64,
+    src_reg: u8,
+}
+
+impl StackCheck {
+    fn expected(&self) -> u64 {
+        if self.width == 8 {
+            self.init.wrapping_add(self.addend)
+        } else {
+            let sh = self.half as u32 * 8;
+            let part = ((self.init >> sh) as u32).wrapping_add(self.addend as u32);
+            (self.init & !(0xffff_ffffu64 << sh)) | ((part as u64) << sh)
+        }
+    }
 }
 
 #[derive(Clone, Debug)]
@@ -241,21 +266,42 @@ fn build_program(e: &ExecSpec, region_addr: u64) -> Vec<u8> {
         v.push(ins(0x85, 0, 0, 0, HELPER_KEY as i32));
         v.push(ins(0xbf, 1, 6, 0, 0)); // r1-r5 are undefined after a helper call
     }
+    if let Some(c) = &e.stack_check {
+        let lddw = |v: &mut Vec<[u8; 8]>, r: u8, x: u64| {
+            v.push(ins(0x18, r, 0, 0, x as u32 as i32));
+            v.push(ins(0, 0, 0, 0, (x >> 32) as u32 as i32));
+        };
+        const SENTINEL: u64 = 0x5e5e_a1a1_c3c3_7b7b;
+        lddw(&mut v, 2, c.init);
+        v.push(ins(0x7b, 10, 2, -16, 0)); // stxdw [r10-16], r2
+        lddw(&mut v, 3, SENTINEL);
+        v.push(ins(0x7b, 10, 3, -8, 0));
+        v.push(ins(0x7b, 10, 3, -24, 0));
+        lddw(&mut v, c.src_reg, c.addend);
+        v.push(ins(if c.width == 4 { 0xc3 } else { 0xdb }, 10, c.src_reg, -16 + c.half as i16, 0));
+        v.push(ins(0x79, 8, 10, -16, 0)); // ldxdw r8, [r10-16]
+        v.push(ins(0x79, 2, 10, -8, 0));
+        v.push(ins(0xaf, 8, 2, 0, 0)); // xor64 r8, r2
+        v.push(ins(0x79, 2, 10, -24, 0));
+        v.push(ins(0xaf, 8, 2, 0, 0)); // both neighbours intact => r8 is the slot again
+    }
     let body = body_insns(e);
     let tail = match e.tail_load {
         Some((off, w)) => ins(if w == 4 { 0x61 } else { 0x79 }, 0, 6, off as i16, 0),
         None => ins(0xb7, 0, 0, 0, 0),
     };
+    // what the execution returns: the stack self-check result if there is one
+    let ret: Vec<[u8; 8]> = if e.stack_check.is_some() { vec![tail, ins(0xbf, 0, 8, 0, 0)] } else { vec![tail] };
     if e.in_callee {
         // main: call f ; tail ; exit      f: body ; exit
-        v.push(ins(0x85, 0, 1, 0, 2));
-        v.push(tail);
+        v.push(ins(0x85, 0, 1, 0, ret.len() as i32 + 1));
+        v.extend(ret);
         v.push(ins(0x95, 0, 0, 0, 0));
         v.extend(body);
         v.push(ins(0x95, 0, 0, 0, 0));
     } else {
         v.extend(body);
-        v.push(tail);
+        v.extend(ret);
         v.push(ins(0x95, 0, 0, 0, 0));
     }
     v.concat()
@@ -292,6 +338,15 @@ impl Scenario {
             j["loop_step"] = e.loop_step.into();
             j["in_callee"] = e.in_callee.into();
             j["helper_first"] = e.helper_first.into();
+            if let Some(c) = &e.stack_check {
+                let mut cj = JsonValue::new_object();
+                cj["width"] = c.width.into();
+                cj["half"] = c.half.into();
+                cj["init"] = simcore::ju64(c.init);
+                cj["addend"] = simcore::ju64(c.addend);
+                cj["src_reg"] = c.src_reg.into();
+                j["stack_check"] = cj;
+            }
             j["tail_load"] = match e.tail_load {
                 Some((o, w)) => json::array![o, w],
                 None => JsonValue::Null,
@@ -334,6 +389,12 @@ impl Scenario {
                 loop_step: e["loop_step"].as_u32().unwrap_or(0),
                 in_callee: e["in_callee"].as_bool().unwrap_or(false),
                 helper_first: e["helper_first"].as_bool().unwrap_or(false),
+                stack_check: if e["stack_check"].is_object() {
+                    let c = &e["stack_check"];
+                    Some(StackCheck { width: c["width"].as_u8()?, half: c["half"].as_u8()?, init: simcore::pu64(&c["init"])?, addend: simcore::pu64(&c["addend"])?, src_reg: c["src_reg"].as_u8()? })
+                } else {
+                    None
+                },
             });
         }
         let schedule = if v["schedule"].is_null() { None } else { Some(v["schedule"].members().map(|x| x.as_u8().unwrap_or(0)).collect()) };
@@ -470,7 +531,20 @@ fn generate(rng: &mut Rng) -> Scenario {
         let in_callee = engine != Engine::Cl && rng.chance(1, 5);
         let helper_first = rng.chance(1, 5);
         let loop_step = if loop_n > 1 && adds.len() == 1 && !adds[0].src_is_base && aligned(&adds[0]) && rng.chance(1, 2) { rng.range(1, 1 << 20) as u32 } else { 0 };
-        execs.push(ExecSpec { engine, reach, adds, tail_load, loop_n, loop_step, in_callee, helper_first });
+        let stack_check = if rng.chance(1, 4) {
+            let width = if rng.chance(1, 2) { 8 } else { 4 };
+            // r8 carries the result to the end: keep it out of the adds
+            for a in adds.iter_mut() {
+                if a.base_reg == 8 {
+                    a.base_reg = 7;
+                }
+            }
+            let init = if rng.chance(1, 2) { u64::MAX - rng.below(4) } else { rng.next_u64() };
+            Some(StackCheck { width, half: if width == 4 && rng.chance(1, 2) { 4 } else { 0 }, init, addend: rng.next_u64() | 1, src_reg: *rng.pick(&[2u8, 3, 4, 5, 9, 0, 7]) })
+        } else {
+            None
+        };
+        execs.push(ExecSpec { engine, reach, adds, tail_load, loop_n, loop_step, in_callee, helper_first, stack_check });
     }
     let strategy = match rng.below(3) {
         0 => Strategy::Uniform,
@@ -798,6 +872,11 @@ fn check(sc: &Scenario, out: &RunOutput) -> Option<Violation> {
                 return Some(Violation { class: format!("aligned-xadd-refused/{}", eng), detail: format!("execution #{} has only naturally aligned atomic adds inside its region and returned Err: {}", i, e.lines().next().unwrap_or("")) });
             }
             _ => {}
+        }
+        if let (Some(c), Outcome::Ok(v)) = (&spec.stack_check, &out.outs[i].solo) {
+            if *v != c.expected() {
+                return Some(Violation { class: format!("stack-xadd-wrong/{}/{}", eng, c.width as u32 * 8), detail: format!("execution #{}: a {}-bit atomic add of {:#x} on the stack slot at r10-16{} holding {:#x}, folded with its two neighbours, gave {:#x}; expected {:#x}", i, c.width as u32 * 8, c.addend, if c.half == 4 { "+4" } else { "" }, c.init, v, c.expected()) });
+            }
         }
         if must_err && evs.len() > exp.len() {
             return Some(Violation { class: "misaligned-touched-memory".into(), detail: format!("execution #{} ({}): the refused misaligned atomic add still wrote: {}", i, eng, ev_desc(evs[exp.len()])) });
